@@ -265,6 +265,11 @@ def coq_makefile():
 
 def coq_build(targets, timeout=1500, force=()):
     """full .vo build of the given targets (relative to coq/). returns (ok, output)"""
+    with Lock("coqmake"):
+        return _coq_build(targets, timeout, force)
+
+
+def _coq_build(targets, timeout, force):
     coq_makefile()
     for t in force:
         for ext in (".vo", ".glob", ".vos", ".vok"):
@@ -587,7 +592,8 @@ def run_sharded(exe, lines, case_timeout=20, env=None, args=(), jobs=NCPU):
 # known findings
 # ------------------------------------------------------------------------------------------------
 def load_known(pid):
-    p = os.path.join(ROOT, "KNOWN_FINDINGS.json")
+    """known findings of a property: findings/<pid>.json (KNOWN_FINDINGS.json is the generated union)"""
+    p = os.path.join(ROOT, "findings", pid + ".json")
     if not os.path.exists(p):
         return []
     data = json.load(open(p))
